@@ -94,6 +94,15 @@ S["two_trigger_delays_rev"] = dict(until=3, sims=[E("A", init_event=0, emit_defa
                                                  E("B", emit_default=0), E("Cc")],
                                    conns=[C("A", "B", "eo", "ti2", shift=1), C("A", "B", "eo", "ti"),
                                           C("B", "Cc", "eo", "ti")])
+# a direct trigger edge that is longer than an indirect path between the same two simulators
+S["two_paths_shift2"] = dict(until=4, sims=[E("A", init_event=0, emit=[0, None, None, 0], next=[1, 1, 1]),
+                                            E("R", init_event=0, emit_default=0), E("Z")],
+                             conns=[C("A", "Z", "eo", "ti", shift=2), C("A", "R", "eo", "ti"),
+                                    C("R", "Z", "eo", "ti2")])
+# max_advance near the end of the simulation with a large time shift
+S["shift3_near_end"] = dict(until=4, sims=[E("A", init_event=0, emit_default=0, next=[3]),
+                                           T("P"), H("Z")],
+                            conns=[C("A", "Z", "eo", "ti", shift=3), C("P", "Z", "po", "mi")])
 S["maxadv_inflight"] = dict(until=3, sims=[E("Cc", init_event=0, emit_default=0), E("D", init_event=0)],
                             conns=[C("Cc", "D", "eo", "ti", shift=1)])
 # ---- mixed inputs -------------------------------------------------------------------
@@ -174,6 +183,21 @@ S["shift_in_group_loop"] = dict(
           E("Cc", group="g", emit=[None, 0] * 6)],
     conns=[C("A", "B", "eo", "ti"), C("B", "A", "eo", "ti", weak=True), C("A", "Cc", "eo", "ti"),
            C("Cc", "A", "eo", "ti2", shift=1)])
+# the loop counts on an outer tier (members in sibling sub-groups of the loop's group)
+S["loop_outer_tier_unsettled"] = dict(
+    until=2, max_loop=3, groups={"g": None, "h": "g", "h2": "g"},
+    sims=[E("A", group="h", init_event=0, emit_default=0), E("B", group="h2", emit_default=0)],
+    conns=[C("A", "B", "eo", "ti"), C("B", "A", "eo", "ti", weak=True)])
+S["loop_outer_tier_settles"] = dict(
+    until=2, max_loop=3, groups={"g": None, "h": "g", "h2": "g"},
+    sims=[E("A", group="h", init_event=0, emit=[0, 0], next=[None, None, 1]),
+          E("B", group="h2", emit_default=0)],
+    conns=[C("A", "B", "eo", "ti"), C("B", "A", "eo", "ti", weak=True)])
+# a loop member always answers for the next time step: one sub-step per time step, forever
+S["weak_loop_next_time"] = dict(
+    until=6, max_loop=3, groups=G1,
+    sims=[E("A", group="g", init_event=0, emit_default=0), E("B", group="g", emit_default=1)],
+    conns=[C("A", "B", "eo", "ti"), C("B", "A", "eo", "ti", weak=True)])
 S["loop3_members"] = dict(until=2, max_loop=3, groups=G1,
                           sims=[E("A", group="g", init_event=0, emit=[0, 0], next=[None, None, 1]),
                                 E("B", group="g", emit_default=0), E("Cc", group="g", emit_default=0)],
@@ -226,10 +250,6 @@ for _n in ("T_to_H_trigger", "E_chain3_self", "future_out", "weak_loop", "shift_
     _b = S[_n]
     S[_n + "_X"] = dict(_b, until=min(_b["until"], 2 if len(_b["sims"]) > 2 else 3),
                         sims=list(_b["sims"]) + [T("X")])
-
-EXPECT_LOOP_ERROR = {n for n, s in S.items()
-                     if n.startswith("loop_") and (n == "loop_unsettled" or
-                                                   int(n.split("_")[1]) + 1 > int(n.split("max")[1]))}
 
 # ---- generated family -----------------------------------------------------------------
 GROUP_TEMPLATES = {
